@@ -5,6 +5,7 @@ CONSTANTS
   MaxLen = 0
   IdxSlack = 0
   MaxPairs = 2
+  LitSizes = {}
 INVARIANTS TypeOK SizeIsCount
 PROPERTIES LastWriteWins
 VIEW View
